@@ -8,7 +8,7 @@
   {ack, next, ping, pong, complete, error, non-JSON, unknown type, missing type, next without data};
   frames the property does not talk about are `clientMsg` (a client-to-server type echoed by the
   server: known type, nothing to do) or `outside` (DESIGN.md §3.0: JSON that is not an object,
-  `payload` of the wrong JSON kind, an `error` payload that is not a list of error objects,
+  `payload` of the wrong JSON kind, an `error` payload that is present and not a list of error objects,
   a `type` that is a non-empty list/object).
 
   The finding-trigger predicates of C13 are defined here (decidable, computable) so that the driver
@@ -75,6 +75,7 @@ def letter : Frame → Letter
       else if s = "error" then
         match J.lookup "payload" kvs with
         | some (.arr es) => if es.all errShaped then .error es else .outside
+        | none => .error []          -- an `error` message without payload is still the error letter: no entries
         | _ => .outside
       else if s = "connection_init" then .clientMsg
       else if s = "subscribe" then .clientMsg
